@@ -9,12 +9,14 @@ package limit
 import (
 	"bufio"
 	"encoding/json"
+	"errors"
 	"os"
 	"sync/atomic"
 	"testing"
 	"time"
 
 	"github.com/alicebob/miniredis/v2"
+	"github.com/zeromicro/go-zero/core/breaker"
 	"github.com/zeromicro/go-zero/core/logx"
 	"github.com/zeromicro/go-zero/core/stores/redis"
 )
@@ -25,6 +27,7 @@ type verifCase struct {
 	Period int     `json:"period"`
 	Quota  int     `json:"quota"`
 	Lims   int     `json:"lims"`
+	Align  bool    `json:"align"`
 	Keys   []string `json:"keys"`
 	Rate   int     `json:"rate"`
 	Burst  int     `json:"burst"`
@@ -38,6 +41,8 @@ type verifOut struct {
 	ID        int    `json:"id"`
 	Obs       []any  `json:"obs"`
 	Disturbed bool   `json:"disturbed,omitempty"`
+	BaseMs    int64  `json:"base_ms"`          // period cases: the model's initial clock
+	Offset    int    `json:"offset,omitempty"` // aligned period cases: zone offset read by the executor
 	Err       string `json:"err,omitempty"`
 }
 
@@ -81,7 +86,7 @@ func (s *verifStore) setUp() error {
 	return nil
 }
 
-func verifPeriod(c verifCase) (out verifOut) {
+func verifPeriodOnce(c verifCase) (out verifOut) {
 	out = verifOut{ID: c.ID}
 	mr, err := miniredis.Run()
 	if err != nil {
@@ -95,16 +100,39 @@ func verifPeriod(c verifCase) (out verifOut) {
 		}
 		verifPark(mr)
 	}()
+	var opts []PeriodOption
+	var unix0 int64
+	if c.Align {
+		// calcExpireSeconds reads time.Now() and its zone and cannot be given a clock: the
+		// executor samples the same clock before and after the (sub-second) case and the case
+		// is repeated when the second changed in between; the model's clock starts there
+		opts = append(opts, Align())
+		now := time.Now()
+		_, out.Offset = now.Zone()
+		unix0 = now.Unix()
+		out.BaseMs = unix0 * 1000
+	}
 	lims := make([]*PeriodLimit, c.Lims)
 	for i := range lims {
-		// separate clients = separate callers
-		lims[i] = NewPeriodLimit(c.Period, c.Quota, redis.New(mr.Addr()), "p:")
+		// separate Redis objects = separate callers (they share go-zero's per-address client)
+		lims[i] = NewPeriodLimit(c.Period, c.Quota, redis.New(mr.Addr()), "p:", opts...)
 	}
 	for _, op := range c.Ops {
 		switch op[0].(string) {
 		case "take":
 			code, err := lims[vnum(op[1])].Take(c.Keys[vnum(op[2])])
-			out.Obs = append(out.Obs, []any{code, err != nil})
+			// third component: the circuit breaker let the command through
+			out.Obs = append(out.Obs, []any{code, err != nil, !errors.Is(err, breaker.ErrServiceUnavailable)})
+		case "ttl":
+			k := "p:" + c.Keys[vnum(op[1])]
+			switch {
+			case !mr.Exists(k):
+				out.Obs = append(out.Obs, map[string]int64{"ttl": -2})
+			case mr.TTL(k) == 0:
+				out.Obs = append(out.Obs, map[string]int64{"ttl": -1})
+			default:
+				out.Obs = append(out.Obs, map[string]int64{"ttl": mr.TTL(k).Milliseconds()})
+			}
 		case "adv":
 			mr.FastForward(time.Duration(vnum(op[1])) * time.Millisecond)
 			out.Obs = append(out.Obs, nil)
@@ -127,7 +155,21 @@ func verifPeriod(c verifCase) (out verifOut) {
 			return
 		}
 	}
+	if c.Align && time.Now().Unix() != unix0 {
+		out.Disturbed = true
+	}
 	return
+}
+
+func verifPeriod(c verifCase) verifOut {
+	var out verifOut
+	for attempt := 0; attempt < 4; attempt++ {
+		out = verifPeriodOnce(c)
+		if !out.Disturbed || out.Err != "" {
+			break
+		}
+	}
+	return out
 }
 
 func verifAlive(l *TokenLimiter) bool { return atomic.LoadUint32(&l.redisAlive) == 1 }
@@ -190,10 +232,14 @@ func verifTokenOnce(c verifCase) (out verifOut) {
 			if before != expect[i] {
 				out.Disturbed = true // a monitor ticked at an unplanned moment
 			}
+			cmds := mr.CommandCount()
 			ok := lims[i].AllowN(time.UnixMilli(now), int(vnum(op[2])))
 			after := verifAlive(lims[i])
 			expect[i] = after
-			out.Obs = append(out.Obs, []bool{ok, before, after})
+			// the reply of the script is not visible through AllowN: the circuit breaker cut the
+			// call off iff the instance fell back although the store is up and no command arrived
+			brk := !(before && !after && !st.down && mr.CommandCount() == cmds)
+			out.Obs = append(out.Obs, []bool{ok, before, after, brk})
 		case "adv":
 			d := vnum(op[1])
 			clock += d
